@@ -81,7 +81,11 @@ THEOREMS = {
          'C01_tri_test_point_outside', 'C01_def_frame_normal', 'C01_frame_normal_eq', 'C01_ear_convex_orient', 'C01_ears_positive',
          'C01_tiling_count_proved', 'C01_tile_exactly_proved', 'C01_area_sum_proved', 'C01_area_positive_proved', 'C01_sanitize_can_change',
          # in terms of the polygon (outer outline and holes): C01_tiling composed with C12_region
-         'C01_polygon_def', 'C01_polygon_count', 'C01_polygon_tile_exactly', 'C01_polygon_area_sum', 'C01_polygon_area_parea'],
+         'C01_polygon_def', 'C01_polygon_count', 'C01_polygon_tile_exactly', 'C01_polygon_area_sum', 'C01_polygon_area_parea',
+         # Properties/C01_refined.v: the same for the live triangles returned by mesh_polygon (C01_tiling + C08_init + C08_refine + C18)
+         'C01_refined_initial_all_live', 'C01_refined_all_live_reported', 'C01_refined_cover_is_count', 'C01_refined_orientation',
+         'C01_refined_count_merged', 'C01_refined_count', 'C01_refined_tile_exactly', 'C01_refined_area_merged', 'C01_refined_area_sum',
+         'C01_refined_area_parea', 'C01_refined_jordan_of_input'],
  'C08': ['C08_initial_invariants', 'C08_wf_history', 'C08_counter_push', 'C08_counter_invalidate_live', 'C08_counter_mark_as_neighbours',
          'C08_counter_split_triangle', 'C08_counter_flip_diagonal', 'C08_counter_restore_delaunay', 'C08_mark_reciprocal',
          'C08_split_edge_half_update_refuted', 'C08_split_edge_w4_now_atomic',
